@@ -22,6 +22,15 @@ class Ctx:
         self.rules = {}        # rule id -> description
         self.configs = ['default']
         self.floors = {}
+        self.broken = []
+
+    def section(self, fn, *args):
+        """Run one group of rules; an anchor that vanished breaks only this group
+        (reported, exit 2 unless another group reports a violation)."""
+        try:
+            fn(self, *args)
+        except AnalysisBroken as e:
+            self.broken.append('%s: %s' % (fn.__name__, e))
 
     def rule(self, rid, text, floor=1):
         self.rules[rid] = text
@@ -68,7 +77,14 @@ def finding_key(o):
 def finish(ctx, t0, extra_cov=None):
     """Evaluate results, write evidence, print report, return exit code."""
     pid = ctx.pid
-    counts = ctx.check_floors()
+    try:
+        counts = ctx.check_floors()
+    except AnalysisBroken as e:
+        if not ctx.broken:
+            raise
+        counts = {}
+        for o in ctx.obs:
+            counts[o['rule']] = counts.get(o['rule'], 0) + 1
     known = load_known()
     known_keys = {k['key']: k for k in known.get('known', []) if k['property'] == pid}
     bad = [o for o in ctx.obs if not o['ok']]
@@ -116,6 +132,7 @@ def finish(ctx, t0, extra_cov=None):
         'exemptions_used': ctx.exempt_used,
         'notes': ctx.notes,
         'known_findings_matched': [finding_key(o) for o in listed],
+        'analysis_broken': ctx.broken,
         'exhaustive': False,
     }
     if extra_cov:
@@ -158,7 +175,11 @@ def finish(ctx, t0, extra_cov=None):
             for step in o['path'][:30]:
                 print('      path: %s' % step)
         print('VIOLATION property=%s replay=%s' % (pid, rp))
-    return 1 if unlisted else 0
+    for b in ctx.broken:
+        print('ANALYSIS-BROKEN property=%s: %s' % (pid, b))
+    if unlisted:
+        return 1
+    return 2 if ctx.broken else 0
 
 
 def run_check(pid, tier, rules_fn, replay=None):
